@@ -56,7 +56,7 @@ def fail(oracle, detail, msg):
 
 
 def nontrivial(res):
-    return res["probes"].get("attempts", 0) > 0 or res["probes"].get("exhaustive_positions", 0) > 0
+    return res["probes"].get("attempts", 0) > 0 or res["probes"].get("exhaustive_positions", 0) > 0 or res["probes"].get("foreign_shares", 0) > 0
 
 
 def vectors():
@@ -96,6 +96,39 @@ class Rng:
         if self.mode == "low":
             return self.r.getrandbits(n) & 1
         return self.r.getrandbits(n)
+
+
+_RS_GEN = (0xE0E040, 0x1C1C080, 0x3838100, 0x7070200, 0xE0E0009, 0x1C0C2412, 0x38086C24, 0x3090FC48, 0x21B1F890, 0x3F3F120)
+
+
+def ref_rs1024_checksum(data):
+    """SLIP-0039 RS1024 checksum (three 10-bit symbols) of the symbols `data` under the customisation string "shamir"; written from the
+    specification, shares nothing with buidl.shamir."""
+    chk = 1
+    for v in list(b"shamir") + list(data) + [0, 0, 0]:
+        b = chk >> 20
+        chk = ((chk & 0xFFFFF) << 10) ^ v
+        for i in range(10):
+            if (b >> i) & 1:
+                chk ^= _RS_GEN[i]
+    chk ^= 1
+    return [(chk >> 10 * (2 - i)) & 1023 for i in range(3)]
+
+
+def ref_share_mnemonic(f):
+    """SLIP-0039 share text for the header fields and value in f, as another implementation would write it: id(15) exponent(5) group index(4)
+    group threshold-1(4) group count-1(4) member index(4) member threshold-1(4), the value left-padded with zero bits to a multiple of 10, checksum(30)."""
+    bits = f["bits"]
+    pad = (-bits) % 10
+    head = (f["id"] << 5) | f["exp"]
+    for x in (f["gi"], f["gt"] - 1, f["gc"] - 1, f["mi"], f["mt"] - 1):
+        head = (head << 4) | x
+    n_val = (bits + pad) // 10
+    allb = (head << (bits + pad)) | f["value"]
+    n = 4 + n_val
+    idx = [(allb >> 10 * (n - 1 - i)) & 1023 for i in range(n)]
+    W = words()
+    return " ".join(W[i] for i in idx + ref_rs1024_checksum(idx))
 
 
 def mutate_share(m, mut):
@@ -149,7 +182,12 @@ def _execute(plan, tr):
         if sp["rng"]["mode"] != "seeded":
             tr.fault("rng_" + sp["rng"]["mode"])
         pw = bytes.fromhex(sp["pass"])
-        shares = ShareSet.generate_shares(mnemonic, sp["k"], sp["n"], passphrase=pw, exponent=sp["exp"])
+        try:
+            shares = ShareSet.generate_shares(mnemonic, sp["k"], sp["n"], passphrase=pw, exponent=sp["exp"])
+        except Exception as e:
+            tr.oracle("V1_split")
+            fail("V1", "split_refused", f"generate_shares refused a {sp['k']}-of-{sp['n']} split of a {sp['bits']}-bit secret (exponent {sp['exp']}): {type(e).__name__}: {e}")
+            continue
         tr.ev("dealer", "split", f"{sp['bits']}|{sp['k']}of{sp['n']}|e{sp['exp']}|{len(shares)}|rng={rng.calls}")
         # V5: stored share text round-trips; header fields are what was asked
         for x, s in enumerate(shares):
@@ -389,9 +427,43 @@ def _execute(plan, tr):
                 where = "checksum_word" if pos >= len(base) - 3 else "data_word"
                 fail("V3", f"checksum_accepts_{1 + len(extra)}_word_substitution_{where}", f"Share.parse accepts {len(accepted)} of the 1023 single-word substitutions at word {pos} of a {len(base)}-word share"
                      f"{' (plus ' + str(len(extra)) + ' other substituted words)' if extra else ''}, e.g. '{accepted[0]}' for '{base[pos]}'")
+        elif op == "foreign_share":
+            # a share written by another implementation: any header the format allows (two-level group/member fields included), any value
+            f = st["fields"]
+            text = ref_share_mnemonic(f)
+            tr.fault("foreign_implementation_shares")
+            tr.oracle("V5_foreign_share_roundtrip")
+            tr.probe("foreign_shares")
+            tr.probe("foreign_share_" + ("member_fields_differ" if f["mi"] != f["mt"] - 1 else "member_fields_equal"))
+            tr.ev("custodian", "foreign_share", f"{f['bits']}|{f['gi']}|{f['gt']}of{f['gc']}|{f['mi']}|{f['mt']}|e{f['exp']}")
+            try:
+                o = Share.parse(text)
+            except Exception as e:
+                fail("V5", "foreign_share_rejected", f"Share.parse refused a well-formed share (group {f['gi']} of a {f['gt']}-of-{f['gc']}, member index {f['mi']}, member threshold {f['mt']}, {f['bits']} bits): {type(e).__name__}: {e}")
+                continue
+            got = {"bits": o.share_bit_length, "id": o.id, "exp": o.exponent, "gi": o.group_index, "gt": o.group_threshold, "gc": o.group_count, "mi": o.member_index, "mt": o.member_threshold, "value": o.value}
+            if got != f:
+                fail("V5", "foreign_share_fields", f"Share.parse read {got} from the share text of {f}")
+                continue
+            try:
+                outs = [o.mnemonic(), Share(f["bits"], f["id"], f["exp"], f["gi"], f["gt"], f["gc"], f["mi"], f["mt"], f["value"]).mnemonic()]
+            except Exception as e:
+                outs = [f"{type(e).__name__}: {e}"]
+            if any(x != text for x in outs):
+                fail("V5", "share_roundtrip_foreign_header", f"a share with group index {f['gi']}, {f['gt']}-of-{f['gc']}, member index {f['mi']}, member threshold {f['mt']} does not encode back to its own text"
+                     f" ({'parsed object' if outs[0] != text else 'object built from the fields'})")
         elif op == "vector":
             vec = vectors()[st["case"] % len(vectors())]
             name, shares, expected = vec
+            for m_ in shares:
+                tr.oracle("V5_vector_roundtrip")
+                try:
+                    back = Share.parse(m_).mnemonic()
+                except Exception:
+                    continue  # refusal of a published share is judged by V1_vector below
+                if back != m_:
+                    fail("V5", "share_roundtrip_vector", f"a share of the published vector '{name}' does not encode back to its own text")
+                    break
             order = list(range(len(shares)))
             plan_rng(st["seed"], "vo").shuffle(order)
             texts = [shares[i] for i in order]
@@ -440,6 +512,14 @@ def gen_split(ch, tier):
             "exp": ch.choice([0, 0, 0, 1, 2]), "rng": {"mode": mode, "seed": ch.randrange(1 << 30)}}
 
 
+def gen_foreign(ch):
+    gc = ch.choice([1, 2, 3, 5, 16, ch.randrange(1, 17)])
+    bits = ch.choice([128, 128, 256])
+    return {"op": "foreign_share", "fields": {"bits": bits, "id": ch.choice([0, 0x7FFF, ch.randrange(1 << 15)]), "exp": ch.choice([0, 1, 2, 31, ch.randrange(32)]), "gi": ch.choice([0, 15, ch.randrange(16)]),
+                                              "gt": ch.randrange(1, gc + 1), "gc": gc, "mi": ch.choice([0, 0, 15, ch.randrange(16)]), "mt": ch.choice([1, 1, 16, ch.randrange(1, 17)]),
+                                              "value": ch.choice([0, (1 << bits) - 1, ch.getrandbits(bits)])}}
+
+
 def gen_mut(ch):
     k = ch.weighted([("words", 6), ("swap", 1), ("truncate", 1), ("extend", 1), ("unknown_word", 1)])
     m = {"kind": k, "seed": ch.randrange(1 << 30), "a": ch.randrange(1000), "b": ch.randrange(1000), "n": ch.choice([1, 1, 2, 3, 3, 4, 6])}
@@ -447,6 +527,8 @@ def gen_mut(ch):
 
 
 def generate(ch, tier, prop):
+    if ch.chance(0.06):
+        return {"splits": [], "steps": [gen_foreign(ch) for _ in range(ch.randrange(1, 4))], "final_attempt": False}
     if ch.chance(0.08):
         return {"splits": [], "steps": [{"op": "vector", "case": ch.randrange(10), "seed": ch.randrange(1 << 30), "drop": ch.chance(0.5)} for _ in range(ch.randrange(1, 3))], "final_attempt": False}
     splits = [gen_split(ch, tier)]
@@ -463,7 +545,7 @@ def generate(ch, tier, prop):
         splits.append(s2)
     sp = splits[0]
     k, n = sp["k"], sp["n"]
-    avail = n if k > 1 else 1
+    avail = n
     # how many custodians answer: around the threshold
     if "loss" in kinds:
         cnt = ch.choice([max(0, k - 1), k, min(avail, k + 1), ch.randrange(0, avail + 1)])
@@ -511,7 +593,7 @@ def enumerate_plans(tier, prop, seed):
         pairs = [(k, n) for (k, n) in pairs if n <= 7 or k in (1, 2, n) or (k + n + seed) % 5 == 0]
     r = random.Random(1234 + seed)
     for (k, n) in pairs:
-        avail = n if k > 1 else 1
+        avail = n
         for size in sorted({max(0, k - 1), k, min(avail, k + 1), avail}):
             if size > avail:
                 continue
@@ -535,6 +617,17 @@ def enumerate_plans(tier, prop, seed):
         for s in range(20 if tier == "quick" else 300):
             yield {"splits": [{"bits": 128 if s % 2 else 256, "eseed": 77 + seed, "k": 2, "n": 3, "pass": "", "exp": 0, "rng": {"mode": "seeded", "seed": 5 + seed}}],
                    "steps": [{"op": "arrive", "split": 0, "idx": 0}, {"op": "arrive", "split": 0, "idx": 1, "mut": {"kind": "words", "seed": s * 7 + nw + seed, "n": nw, "a": 0, "b": 0}}], "enum": "subst"}
+
+
+    # shares written by another implementation: every (member index, member threshold) pair, group fields rotating through their ranges
+    for mi in range(16):
+        steps = []
+        for mt in range(1, 17):
+            gc = 1 + (mi * 5 + mt * 3 + seed) % 16
+            bits = 128 if (mi + mt) % 2 else 256
+            steps.append({"op": "foreign_share", "fields": {"bits": bits, "id": r.randrange(1 << 15), "exp": (mi + mt) % 32, "gi": (mi * 7 + mt) % 16, "gt": 1 + (mi + mt) % gc, "gc": gc, "mi": mi, "mt": mt,
+                                                            "value": r.getrandbits(bits)}})
+        yield {"splits": [], "steps": steps, "final_attempt": False, "enum": "foreign-headers"}
 
 
 def shrink(plan):
